@@ -26,34 +26,49 @@ open Pandora.Model.C03Comp
 theorem prologue_eq : Gen.InstLoop.compNextPrologue = ["$.started.Store(true)"] := rfl
 
 theorem reader_eq (s : List Nat) : Gen.InstLoop.compNextReader s = rsec s := by
-  match s with
-  | [] => simp [Gen.InstLoop.compNextReader, rsec, cHeadNext]
-  | (n + 1) :: r => simp [Gen.InstLoop.compNextReader, rsec, cHeadNext]
-  | [0] => simp [Gen.InstLoop.compNextReader, rsec, cHeadNext, cLen]
-  | 0 :: b :: r =>
-    simp only [Gen.InstLoop.compNextReader, rsec, cHeadNext, cLen, List.length_cons]
-    have h : ¬ ((((r.length + 1 + 1 : Nat) : Int)) = 1) := by omega
-    simp [h]
-    omega
+  unfold Gen.InstLoop.compNextReader
+  cases s with
+  | nil => simp [rsec, cHeadNext]
+  | cons a r =>
+    cases a with
+    | succ n => simp [rsec, cHeadNext]
+    | zero =>
+      cases r with
+      | nil => simp [rsec, cHeadNext, cLen]
+      | cons b r' =>
+        have h1 : ¬ ((r'.length : Int) + 1 + 1 = 1) := by omega
+        simp [rsec, cHeadNext, cLen, h1]
+        omega
 
 theorem writer_eq (s : List Nat) (seen : Nat) : Gen.InstLoop.compNextWriter s seen = wsec s seen := by
+  have key : decide (cLen s < (seen : Int)) = decide (s.length < seen) := by simp [cLen]
+  unfold Gen.InstLoop.compNextWriter wsec
+  simp only [key]
   by_cases hl : s.length < seen
-  · have hl' : ((s.length : Nat) : Int) < (seen : Int) := by omega
-    match s, hl, hl' with
-    | [], hl, hl' => simp [Gen.InstLoop.compNextWriter, wsec, cHeadNext, cLen, hl]
-    | (n + 1) :: r, hl, hl' => simp [Gen.InstLoop.compNextWriter, wsec, cHeadNext, cLen, hl, hl']
-    | [0], hl, hl' => simp [Gen.InstLoop.compNextWriter, wsec, cHeadNext, cLen, hl, hl']
-    | 0 :: b :: r, hl, hl' =>
-      have h1 : ¬ ((((r.length + 1 + 1 : Nat) : Int)) = 1) := by omega
-      simp [Gen.InstLoop.compNextWriter, wsec, cHeadNext, cLen, hl, hl', h1]
-  · have hl' : ¬ ((s.length : Nat) : Int) < (seen : Int) := by omega
-    match s, hl, hl' with
-    | [], hl, hl' => simp [Gen.InstLoop.compNextWriter, wsec, cStartNext, cLen, hl, hl']
-    | [a], hl, hl' => simp [Gen.InstLoop.compNextWriter, wsec, cStartNext, cLen, hl, hl']
-    | a :: (n + 1) :: r, hl, hl' => simp [Gen.InstLoop.compNextWriter, wsec, cStartNext, cHeadNext, cLen, hl, hl']
-    | a :: 0 :: r, hl, hl' =>
-      have h1 : (((r.length + 1 + 1 : Nat) : Int)) > 1 := by omega
-      simp [Gen.InstLoop.compNextWriter, wsec, cStartNext, cHeadNext, cLen, hl, hl', h1]
+  · simp only [hl, decide_true, if_true]
+    cases s with
+    | nil => simp [cHeadNext]
+    | cons a r =>
+      cases a with
+      | succ n => simp [cHeadNext]
+      | zero =>
+        cases r with
+        | nil => simp [cHeadNext, cLen]
+        | cons b r' =>
+          have h1 : ¬ ((r'.length : Int) + 1 + 1 = 1) := by omega
+          simp [cHeadNext, cLen, h1]
+  · simp only [hl, decide_false, Bool.false_eq_true, if_false]
+    cases s with
+    | nil => simp [cStartNext]
+    | cons a r =>
+      cases r with
+      | nil => simp [cStartNext]
+      | cons b r' =>
+        cases b with
+        | succ n => simp [cStartNext, cHeadNext]
+        | zero =>
+          have h2 : (1 : Int) < (r'.length : Int) + 1 + 1 := by omega
+          simp [cStartNext, cHeadNext, cLen, h2]
 
 theorem left_reads_eq : Gen.InstLoop.compLeftReads = ["left", "leftAfter", "schedsLeft"] := rfl
 
@@ -86,12 +101,14 @@ theorem build_step_finite (acc pl : Int) (h : 0 ≤ pl) : Gen.InstLoop.compBuild
 
 /-- the whole loop over finite parts: `leftAfter[k]` = the tokens of the parts after `k`, nothing unknown, all counted -/
 theorem build_finite (parts : List Nat) :
-    buildWith Gen.InstLoop.compBuildStep parts = ((mkLeftAfter parts).map (fun n => (n : Int)), false, (tot parts : Int)) := by
+    buildWith Gen.InstLoop.compBuildStep parts = ((mkLeftAfter parts).map Int.ofNat, false, Int.ofNat (tot parts)) := by
   induction parts with
   | nil => rfl
   | cons a r ih =>
-    simp only [buildWith, ih, build_step_finite _ _ (Int.natCast_nonneg a), mkLeftAfter, List.map_cons, tot]
-    simp only [Prod.mk.injEq, List.cons.injEq, true_and, and_true]
+    simp only [buildWith, ih]
+    rw [build_step_finite _ _ (Int.natCast_nonneg a)]
+    simp only [mkLeftAfter, List.map_cons, tot, Prod.mk.injEq, true_and]
+    simp only [Int.ofNat_eq_natCast, Int.natCast_add]
     omega
 
 end Pandora.Bridge.C03Comp
